@@ -69,74 +69,85 @@ func modeC18() {
 	defer tr.Close()
 	u := newFakeUp("u1", func() *vtrace.T { return vtrace.OpenNull() })
 	defer u.close()
-	kinds := []string{"udp", "tcp", "http"}
-	for _, fk := range []string{"inuse", "badproto", "badcert", "badcert-https"} {
-		for pos := 1; pos <= 3; pos++ {
-			cfg := &router.Config{Upstreams: []router.UpstreamConfig{{Tag: "u1", Addr: "udp://" + u.addr}}, Rules: []router.RuleConfig{{Forward: "u1"}}}
-			ports := make([]int, 3)
-			mport := freePort(false)
-			cfg.Metrics.Addr = fmt.Sprintf("127.0.0.1:%d", mport) // started before the listeners: released as well
-			var blocker interface{ Close() error }
-			for i, k := range kinds {
-				ports[i] = freePort(k == "udp")
-				sc := router.ServerConfig{Protocol: k, Listen: fmt.Sprintf("127.0.0.1:%d", ports[i])}
-				if i+1 == pos {
-					switch fk {
-					case "inuse":
-						if k == "udp" {
-							c, err := net.ListenUDP("udp", &net.UDPAddr{IP: net.IPv4(127, 0, 0, 1), Port: ports[i]})
-							if err != nil {
-								panic(err)
+	isUDP := func(k string) bool { return k == "udp" || k == "quic" }
+	for ks, kinds := range [][]string{{"udp", "tcp", "http"}, {"fasthttp", "gnet", "quic"}, {"https", "fasthttp", "tls"}} {
+		for _, fk := range []string{"inuse", "badproto", "badcert", "badcert-https"} {
+			for pos := 1; pos <= 3; pos++ {
+				if ks > 0 && fk != "inuse" && pos != 2 { // the other listener kinds: mainly as the ones already started
+					continue
+				}
+				cfg := &router.Config{Upstreams: []router.UpstreamConfig{{Tag: "u1", Addr: "udp://" + u.addr}}, Rules: []router.RuleConfig{{Forward: "u1"}}}
+				ports := make([]int, 3)
+				mport := freePort(false)
+				cfg.Metrics.Addr = fmt.Sprintf("127.0.0.1:%d", mport) // started before the listeners: released as well
+				var blocker interface{ Close() error }
+				for i, k := range kinds {
+					ports[i] = freePort(isUDP(k))
+					sc := router.ServerConfig{Protocol: k, Listen: fmt.Sprintf("127.0.0.1:%d", ports[i])}
+					if k == "tls" || k == "https" || k == "quic" {
+						sc.Tls.DebugUseTempCert = true
+					}
+					if i+1 == pos {
+						switch fk {
+						case "inuse":
+							if isUDP(k) {
+								c, err := net.ListenUDP("udp", &net.UDPAddr{IP: net.IPv4(127, 0, 0, 1), Port: ports[i]})
+								if err != nil {
+									panic(err)
+								}
+								blocker = c
+							} else {
+								l, err := net.Listen("tcp", sc.Listen)
+								if err != nil {
+									panic(err)
+								}
+								blocker = l
 							}
-							blocker = c
-						} else {
-							l, err := net.Listen("tcp", sc.Listen)
-							if err != nil {
-								panic(err)
-							}
-							blocker = l
+						case "badproto":
+							sc.Protocol = "bogus"
+						case "badcert":
+							sc.Protocol = "tls"
+							sc.Tls.Cert, sc.Tls.Key = "/nonexistent/cert.pem", "/nonexistent/key.pem"
+						case "badcert-https":
+							sc.Protocol = "https"
+							sc.Tls.Cert, sc.Tls.Key = "/nonexistent/cert.pem", "/nonexistent/key.pem"
 						}
-					case "badproto":
-						sc.Protocol = "bogus"
-					case "badcert":
-						sc.Protocol = "tls"
-						sc.Tls.Cert, sc.Tls.Key = "/nonexistent/cert.pem", "/nonexistent/key.pem"
-					case "badcert-https":
-						sc.Protocol = "https"
-						sc.Tls.Cert, sc.Tls.Key = "/nonexistent/cert.pem", "/nonexistent/key.pem"
+					}
+					cfg.Servers = append(cfg.Servers, sc)
+				}
+				vr, err := router.VerifRun(cfg)
+				es, panicked, started := "", false, err == nil
+				if err != nil {
+					es = err.Error()
+					panicked = strings.HasPrefix(es, "panic:")
+				}
+				if vr != nil {
+					vr.Close()
+				}
+				time.Sleep(150 * time.Millisecond)
+				rebound := true
+				for i, k := range kinds {
+					if i+1 < pos && !canBind(k, ports[i]) {
+						rebound = false
+					}
+					// the listener that failed holds nothing either (its port was never ours when it was in use)
+					if i+1 == pos && fk != "inuse" && !canBind(map[bool]string{true: "udp", false: "tcp"}[isUDP(k) && fk == "badproto"], ports[i]) {
+						rebound = false
+						es += " [the failing listener left its socket open]"
 					}
 				}
-				cfg.Servers = append(cfg.Servers, sc)
-			}
-			vr, err := router.VerifRun(cfg)
-			es, panicked, started := "", false, err == nil
-			if err != nil {
-				es = err.Error()
-				panicked = strings.HasPrefix(es, "panic:")
-			}
-			if vr != nil {
-				vr.Close()
-			}
-			time.Sleep(150 * time.Millisecond)
-			rebound := true
-			for i, k := range kinds {
-				if i+1 < pos && !canBind(k, ports[i]) {
+				if !canBind("tcp", mport) {
 					rebound = false
+					es += " [metrics endpoint still listening]"
 				}
-				// the listener that failed holds nothing either (its port was never ours when it was in use)
-				if i+1 == pos && fk != "inuse" && !canBind(map[bool]string{true: "udp", false: "tcp"}[k == "udp" && fk == "badproto"], ports[i]) {
-					rebound = false
-					es += " [the failing listener left its socket open]"
+				if blocker != nil {
+					blocker.Close()
 				}
+				if !rebound {
+					es += fmt.Sprintf(" [listeners %v]", kinds)
+				}
+				tr.Emit("boot18", "kind", fk, "pos", pos, "started", started, "panicked", panicked, "rebound", rebound, "err", es)
 			}
-			if !canBind("tcp", mport) {
-				rebound = false
-				es += " [metrics endpoint still listening]"
-			}
-			if blocker != nil {
-				blocker.Close()
-			}
-			tr.Emit("boot18", "kind", fk, "pos", pos, "started", started, "panicked", panicked, "rebound", rebound, "err", es)
 		}
 	}
 	// start-up errors in the upstream / domain-set part of the configuration with upstreams that own a socket
